@@ -13,6 +13,7 @@ import (
 	"sort"
 	"strings"
 	"sync/atomic"
+	"syscall"
 	"time"
 
 	"golang.org/x/crypto/argon2"
@@ -175,14 +176,29 @@ func suiteV12(c *vctx) {
 				}
 			}
 		}
+		// a quarter of the local-mode agents have their work area on ANOTHER file system (a mount, a
+		// volume): the rename of an upgrade cannot cross it — the record must then be left untouched
+		// (or, if the code copes with it, rewritten exactly as the property says)
+		saturated := mode == "local" && r.Bool()
+		if saturated {
+			a.ref.AddUser("filler", "Filler-Passw0rd-9x!", false)
+		}
+		xdev := ""
+		if mode == "local" && r.Intn(4) == 0 {
+			var sa, sb syscall.Stat_t
+			if syscall.Stat("/dev/shm", &sa) == nil && syscall.Stat(a.dirPath, &sb) == nil && sa.Dev != sb.Dev {
+				xdev = fmt.Sprintf("/dev/shm/whawty-verif-v12-%d-%d", os.Getpid(), i)
+				os.MkdirAll(xdev, 0700)
+				os.RemoveAll(filepath.Join(a.dirPath, ".tmp"))
+				os.Symlink(xdev, filepath.Join(a.dirPath, ".tmp"))
+			}
+		}
 		cfgTok := fmt.Sprintf("%d;1:%s,2:%s", dflt, vxs("hmac_sha256_scrypt"), vxs("argon2id"))
 		// saturation prelude (local mode): logins with upgradeable hashes are served while the update
 		// queue is full, so that their upgrade requests are dropped. Nothing may remember that: on
 		// the idle agent afterwards the next login must upgrade (checked by the loop below, which
 		// then starts with one right-password login per user).
-		saturated := mode == "local" && r.Bool()
 		if saturated {
-			a.ref.AddUser("filler", "Filler-Passw0rd-9x!", false)
 			g := a.installGate()
 			var reqs []*creq
 			hold := &creq{kind: "auth", user: "filler", pw: "Filler-Passw0rd-9x!"}
@@ -210,6 +226,13 @@ func suiteV12(c *vctx) {
 			g.mu.Unlock()
 			if held {
 				g.release <- true
+			} else {
+				// (the holder never reached a hasher: whoever did is let through)
+				select {
+				case <-g.ev:
+					g.release <- true
+				case <-time.After(100 * time.Millisecond):
+				}
 			}
 			answered := true
 			for _, q := range append(reqs, hold) {
@@ -318,7 +341,9 @@ func suiteV12(c *vctx) {
 				if !changed {
 					// untouched is allowed; on an idle agent the rewrite must happen if upgradeable and policy ok
 					policyOk := !weakPolicy || u != "bob"
-					c.emit("law.C12.idle_agent_performs_upgrade "+desc, vtf(!(upgRef && policyOk)))
+					if xdev == "" { // (with the work area on another file system the rewrite cannot be moved into place)
+						c.emit("law.C12.idle_agent_performs_upgrade "+desc, vtf(!(upgRef && policyOk)))
+					}
 				} else {
 					// rewritten under the default set for exactly the same password; admin flag and aux unchanged
 					okAfter, admAfter, upgAfter, _, _ := a.ref.Authenticate(u, p)
@@ -334,6 +359,9 @@ func suiteV12(c *vctx) {
 		}
 		if srv != nil {
 			srv.Close()
+		}
+		if xdev != "" {
+			os.RemoveAll(xdev)
 		}
 		os.RemoveAll(a.dirPath)
 		if master != nil {
